@@ -129,8 +129,13 @@ fn set_size_and_cksum(h: &mut [u8], size: usize) {
 
 /// A header of our own making (GNU style, regular file).
 pub fn tar_header(name: &str, size: usize) -> Vec<u8> {
+	tar_header_bytes(name.as_bytes(), size)
+}
+
+/// the same for a name that need not be UTF-8 (tar names are bytes)
+pub fn tar_header_bytes(name: &[u8], size: usize) -> Vec<u8> {
 	let mut h = vec![0u8; 512];
-	h[..name.len()].copy_from_slice(name.as_bytes());
+	h[..name.len()].copy_from_slice(name);
 	h[100..108].copy_from_slice(b"0000644\0");
 	h[108..116].copy_from_slice(b"0000000\0");
 	h[116..124].copy_from_slice(b"0000000\0");
@@ -449,9 +454,23 @@ fn c18_variant(spec: &Spec, bytes: &[u8], p: &Progress, var: usize, only: Option
 		let l = label(check);
 		let mut es = entries.clone();
 		let junk: Vec<u8> = (0..700u32).map(|i| (i * 7 + 13) as u8).collect();
-		es.insert(k, TarEntry { name: "unknown.bin".to_string(), header: tar_header("unknown.bin", junk.len()), data: junk, data_off: 0 });
+		// unknown entries come with all sorts of names (tar names are bytes): plain, in a sub-directory, not UTF-8, and the
+		// "./" directory entry that `tar -cf x.slpp .` puts first -- rotating with the position and the case
+		let (uname, udata): (&[u8], Vec<u8>) = match (k + spec.seed as usize) % 4 {
+			0 => (b"unknown.bin", junk),
+			1 => (b"extra/notes.txt", junk),
+			2 => (b"caf\xe9.txt", junk),
+			_ => (b"./", vec![]),
+		};
+		let mut uh = tar_header_bytes(uname, udata.len());
+		if uname == b"./" {
+			uh[156] = b'5'; // directory
+			uh[100..108].copy_from_slice(b"0000755\0");
+			set_size_and_cksum(&mut uh, 0);
+		}
+		es.insert(k, TarEntry { name: String::from_utf8_lossy(uname).to_string(), header: uh, data: udata, data_off: 0 });
 		let with = tar_build(&es);
-		let what = format!("the archive with an unknown entry before entry {}", k);
+		let what = format!("the archive with an unknown entry {:?} before entry {}", String::from_utf8_lossy(uname), k);
 		if let Some(g) = tri!(slpp_read_valid(p, var << 16 | check, &l, &what, &with, false, zero)) {
 			tri!(same_as_reference(&l, &format!("the game read from {}", what), &g, &reference));
 		}
